@@ -95,6 +95,14 @@ def main():
 
     if ctx.replay:
         rp = json.load(open(ctx.replay if os.path.isabs(ctx.replay) else os.path.join(VERIF, ctx.replay)))
+        if "persist_scenario" in rp:
+            pb = build_harness(ctx, ["persistrun"])
+            outp = os.path.join(ctx.run, "persist.jsonl")
+            rc, o = sh([pb["persistrun"], "-out", outp], cwd=ctx.run, timeout=120)
+            recs = [json.loads(l) for l in open(outp)] if rc == 0 else []
+            if [r for r in recs if r["scenario"] == rp["persist_scenario"] and not r["ok"]]:
+                violation(ctx, rp)
+            finish(ctx)
         if "mode" in rp:
             import storelib
             sb = build_harness(ctx, ["storerun"])
@@ -180,6 +188,33 @@ def main():
         ctx.coverage["codec_round_trips"] = len(res)
         for r in [r for r in res if not r["ok"]][:2]:
             violation(ctx, {"what": r.get("what"), "mode": "seq", "seed": ctx.seed, "n": n, "case": r})
+    if prop == "C11":
+        # the real persist loop in real time (3 s interval): every acknowledged change reaches the store without an explicit save
+        pb = build_harness(ctx, ["persistrun"])
+        outp = os.path.join(ctx.run, "persist.jsonl")
+        recs = []
+        if pb:
+            rc, o = sh([pb["persistrun"], "-out", outp], cwd=ctx.run, timeout=120)
+            if rc == 0:
+                recs = [json.loads(l) for l in open(outp)]
+        if not recs:
+            violation(ctx, {"what": "persistrun did not complete", "broken": "correspondence persistrun vs coq/PersistLoop.v"}, found_input=False)
+        terms = []
+        for i, r in enumerate(recs):
+            evs = ["OChange" if e["kind"] == "change" else "OSave %d%%nat" % e["version"] for e in r["events"] if e["kind"] in ("change", "save_begin")]
+            terms.append("(%d%%nat, [%s], %d%%nat, %s)" % (i, "; ".join(evs), r["changes"], cq_bool(r["ok"])))
+        pbad = run_cases(ctx, "persist", "From stdpp Require Import list.\nFrom PV Require Import PersistLoop Corr.PersistCorr.\n", terms,
+                         case_type="(nat * list oev * nat * bool)", shards=1) if terms else []
+        ctx.coverage["persist_loop_scenarios"] = [{k: r[k] for k in ("scenario", "changes", "reached_store_ms_after_last_change", "ok")} for r in recs]
+        ctx.coverage["persist_loop_model_mismatches"] = pbad
+        late = [r for r in recs if not r["ok"]]
+        for r in late[:2]:
+            violation(ctx, {"what": "an acknowledged change did not reach the store within the persist interval (no explicit save): scenario %s, %d changes, store complete after %s ms (deadline %d)"
+                                    % (r["scenario"], r["changes"], r["reached_store_ms_after_last_change"], r["deadline_ms"]),
+                            "persist_scenario": r["scenario"], "events": r["events"]})
+        if pbad and not late:
+            violation(ctx, {"what": "the real persist loop does not follow PersistLoop.pstep", "broken": "correspondence Corr/PersistCorr.v (C11_change_reaches_store is about a loop the code no longer has)",
+                            "scenarios": [recs[i] for i in pbad[:2]]}, found_input=False)
     if not proof_ok:
         violation(ctx, {"what": "Coq development for %s does not check" % prop, "broken": "Properties/%s.v or its dependencies" % prop,
                         "log": ctx.log_lines[-5:]}, found_input=False)
